@@ -41,18 +41,19 @@ type opRef struct {
 }
 
 type system struct {
-	cfg     cfgT
-	maxId   int
-	root    string
-	nodes   []*cluster.ClusterNode
-	alive   []bool
-	hosts   []string
-	plan    models.UserPlan
-	docs    map[int]sl.Doc
-	placed  map[int]string // point -> shard id (learnt from per-shard searches)
-	step    int
-	obs     sl.Obs
-	pattern string
+	cfg      cfgT
+	maxId    int
+	unloaded bool // the previous step unloaded every shard
+	root     string
+	nodes    []*cluster.ClusterNode
+	alive    []bool
+	hosts    []string
+	plan     models.UserPlan
+	docs     map[int]sl.Doc
+	placed   map[int]string // point -> shard id (learnt from per-shard searches)
+	step     int
+	obs      sl.Obs
+	pattern  string
 }
 
 func schema() models.IndexSchema {
@@ -160,7 +161,14 @@ func (s *system) Apply(raw json.RawMessage) []seqx.Viol {
 	defer func() { s.step++ }()
 	if ref.Name == "all shards unload (idle timeout)" {
 		// what the idle timer does to every loaded shard: the next request has to load its shard
-		// again, whatever kind of request it is (an insert, a search - or a delete)
+		// again, whatever kind of request it is (an insert, a search - or a delete).  The harness
+		// learns where the points live now, so that the next request really is the first to touch the shards.
+		if !s.userNodeDown() {
+			if col, err := s.collection(s.entry(s.step)); err == nil {
+				s.learnPlacement(col)
+			}
+		}
+		s.unloaded = true
 		for i, nd := range s.nodes {
 			if s.alive[i] {
 				nd.VerifShardManager().VerifCloseAllShards()
@@ -168,6 +176,7 @@ func (s *system) Apply(raw json.RawMessage) []seqx.Viol {
 		}
 		return nil
 	}
+	defer func() { s.unloaded = false }() // whatever this request is, it is the one that follows the unload
 	n := s.entry(s.step)
 	if s.userNodeDown() {
 		return nil // the collection record itself is unreachable: nothing is claimed
@@ -228,9 +237,12 @@ func (s *system) Apply(raw json.RawMessage) []seqx.Viol {
 			}
 			req = append(req, 900) // never stored
 		}
-		// where do the requested points live? (needed to predict "failed" when a server is down)
-		if err := s.learnPlacement(col); err != nil {
-			return s.fail("placement-probe-failed", "%v", err)
+		// where do the requested points live? (needed to predict "failed" when a server is down);
+		// right after an unload the placement was learned before it, so that this request loads the shards
+		if !s.unloaded {
+			if err := s.learnPlacement(col); err != nil {
+				return s.fail("placement-probe-failed", "%v", err)
+			}
 		}
 		anyDown := false
 		for _, sid := range col.ShardIds {
